@@ -38,7 +38,7 @@ func shortFuncName(f *ssa.Function) string {
 
 func (g *Gen) isListed(list []string, name string) bool {
 	for _, l := range list {
-		if l == name {
+		if l == name || siteMatches(name, l) {
 			return true
 		}
 		// generic instantiations: match the part before '['
@@ -71,6 +71,19 @@ func (g *Gen) call(in ssa.Instruction, c *ssa.CallCommon, rt types.Type) Val {
 		site := fmt.Sprintf("%s#%d", name, g.callCount[name])
 		for _, gh := range g.fc.Ghosts {
 			if siteMatches(site, gh.Site) {
+				if er, ok := gh.Expr.(*EResult); ok {
+					// `ghost x after f#n = result` names the value this very call returned
+					rv := v
+					if er.N >= 0 && er.N < len(v.Fs) {
+						rv = v.Fs[er.N]
+					}
+					if g.ghostVals == nil {
+						g.ghostVals = map[string]Val{}
+					}
+					g.ghostVals[gh.Name] = rv
+					g.ghostDefs = append(g.ghostDefs, ghostDef{gh.Name, g.curBlock, rv})
+					continue
+				}
 				g.pendingGhosts = append(g.pendingGhosts, gh)
 			}
 		}
@@ -527,6 +540,7 @@ func (g *Gen) evalModLoc(text string, env *Env) []modLoc {
 		var ml modLoc
 		ml.base = p.Idx[0]
 		for _, l := range g.leaves(p.T) {
+			g.noteLeaf(p.Prefix+l.Path, l, len(p.Idx))
 			ml.heaps = append(ml.heaps, p.Prefix+l.Path)
 			ml.sorts = append(ml.sorts, g.heapSort(l.Sort, len(p.Idx)))
 		}
@@ -559,6 +573,20 @@ func (g *Gen) evalModLoc(text string, env *Env) []modLoc {
 		panic(contractErr("modifies item %q must be x.f, x.*, s[*] or heap NAME", text))
 	}
 	bv := g.eval(sel.X, env)
+	if bv.K == kScalar && bv.T != nil {
+		if _, isPtr := bv.T.Underlying().(*types.Pointer); !isPtr && isRefLike(bv.T) {
+			if gt, ok := g.ghostFieldType(env, bv.T, sel.Name); ok {
+				var ml modLoc
+				ml.base = bv.S
+				for _, l := range g.leaves(gt) {
+					g.noteLeaf(g.typeName(bv.T)+".ghost:"+sel.Name+l.Path, l, 1)
+					ml.heaps = append(ml.heaps, g.typeName(bv.T)+".ghost:"+sel.Name+l.Path)
+					ml.sorts = append(ml.sorts, g.heapSort(l.Sort, 1))
+				}
+				return []modLoc{ml}
+			}
+		}
+	}
 	p := g.ptrOf(bv)
 	st, ok := p.T.Underlying().(*types.Struct)
 	if !ok {
@@ -569,6 +597,7 @@ func (g *Gen) evalModLoc(text string, env *Env) []modLoc {
 			var ml modLoc
 			ml.base = p.Idx[0]
 			for _, l := range g.leaves(st.Field(i).Type()) {
+				g.noteLeaf(p.Prefix+"."+sel.Name+l.Path, l, len(p.Idx))
 				ml.heaps = append(ml.heaps, p.Prefix+"."+sel.Name+l.Path)
 				ml.sorts = append(ml.sorts, g.heapSort(l.Sort, len(p.Idx)))
 			}
@@ -579,6 +608,7 @@ func (g *Gen) evalModLoc(text string, env *Env) []modLoc {
 		var ml modLoc
 		ml.base = p.Idx[0]
 		for _, l := range g.leaves(gt) {
+			g.noteLeaf(p.Prefix+".ghost:"+sel.Name+l.Path, l, len(p.Idx))
 			ml.heaps = append(ml.heaps, p.Prefix+".ghost:"+sel.Name+l.Path)
 			ml.sorts = append(ml.sorts, g.heapSort(l.Sort, len(p.Idx)))
 		}
@@ -729,6 +759,7 @@ func (g *Gen) mapHeapSorts(mt *types.Map) map[string]string {
 		base + "#len": "(Array Int " + g.idxSort() + ")",
 	}
 	for _, l := range g.leaves(mt.Elem()) {
+		g.noteLeafKey(base+"#val"+l.Path, l, ks)
 		res[base+"#val"+l.Path] = "(Array Int (Array " + ks + " " + l.Sort + "))"
 	}
 	return res
